@@ -441,12 +441,12 @@ class Columns(Widget, WidgetContainerMixin, WidgetContainerListContentsMixin):
             DeprecationWarning,
             stacklevel=2,
         )
-        focus_position = self.focus_position
+        focus_position = self.focus_position if self.contents else 0
         self.contents = [
             (w, ({Sizing.FIXED: WHSettings.GIVEN, Sizing.FLOW: WHSettings.PACK}.get(new_t, new_t), new_n, b))
             for ((new_t, new_n), (w, (t, n, b))) in zip(column_types, self.contents)
         ]
-        if focus_position < len(column_types):
+        if focus_position < len(self.contents):
             self.focus_position = focus_position
 
     @property
